@@ -552,6 +552,13 @@ func (g *GoFakeS3) writeGetOrHeadObjectResponse(obj *Object, w http.ResponseWrit
 
 	w.Header().Set("Accept-Ranges", "bytes")
 
+	if _, ok := w.Header()["Content-Type"]; !ok {
+		// Without one net/http guesses a type from the body, which it can only
+		// do for GET: HEAD would describe the same object differently. This is
+		// the type S3 reports for an object uploaded without a Content-Type:
+		w.Header().Set("Content-Type", "binary/octet-stream")
+	}
+
 	return nil
 }
 
